@@ -574,7 +574,9 @@ def part_read_stack(led):
     func = F + 'laminate.py:read_stack'
     led.function(func)
     led.bounded_item('read_stack list construction (zip loop): ply count N in {1,2,3}; all other inputs symbolic')
-    for N, form, history in itertools.product((1, 2, 3), ('per-ply', 'uniform'), ('fresh', 'after-another-laminate')):
+    for N, form, history in itertools.product((1, 2, 3), ('per-ply', 'uniform', 'plyts+laminaprop', 'plyt+laminaprops'), ('fresh', 'after-another-laminate')):
+        if form in ('plyts+laminaprop', 'plyt+laminaprops') and (history != 'fresh' or N == 1):
+            continue
         if True:
             it = mk_interp()
             mod = it.module('compmech.composite.laminate')
@@ -596,6 +598,18 @@ def part_read_stack(led):
                 ts = [real('t%d' % i) for i in range(N)]
                 mats = [tuple(real('%s_%d' % (n, i)) for n in ('E1', 'E2', 'nu12', 'G12', 'G13', 'G23')) for i in range(N)]
                 kwargs = dict(plyts=ts, laminaprops=mats, offset=d)
+            elif form == 'plyts+laminaprop':
+                # mixed forms: a list for one of the two, a single value for the other
+                ts = [real('t%d' % i) for i in range(N)]
+                mat = tuple(real(n) for n in ('E1', 'E2', 'nu12', 'G12', 'G13', 'G23'))
+                mats = [mat] * N
+                kwargs = dict(plyts=ts, laminaprop=mat, offset=d)
+            elif form == 'plyt+laminaprops':
+                t = real('t')
+                ts = [t] * N
+                mats = [tuple(real('%s_%d' % (n, i)) for n in ('E1', 'E2', 'nu12', 'G12', 'G13', 'G23')) for i in range(N)]
+                kwargs = dict(plyt=t, laminaprops=mats, offset=d)
+                it.facts.append(to_z3(t) > 0)
             else:
                 t = real('t')
                 mat = tuple(real(n) for n in ('E1', 'E2', 'nu12', 'G12', 'G13', 'G23'))
